@@ -51,9 +51,13 @@ Section Parse.
   (** [single_block and cur_block is root]: the root is the current block iff no frame is stacked. *)
   Definition sb_root (stk : list frame) : bool :=
     po_single_block O && match stk with [] => true | _ => false end.
-  (** [return root[0]] *)
-  Definition root_first (cs_rev : list kv) : pres :=
-    match rev cs_rev with k :: _ => PNode k | [] => PErr EIndex end.
+  (** [return root[0]] at a closing brace; [k] is what happens when the test is guarded by [root._value] and
+      root has no child (the closed block was skipped by its flag): the loop goes on. *)
+  Definition root_first (cs_rev : list kv) (k : pres) : pres :=
+    match rev cs_rev with
+    | x :: _ => PNode x
+    | [] => if p_single_block_guard P then k else PErr EIndex
+    end.
 
   (** The checks made when the token stream is exhausted. *)
   Definition pfinal (stk : list frame) (cur : frame) (b : bl) : pres :=
@@ -132,7 +136,8 @@ Section Parse.
                               | Some n => Block n (rev (snd cur)) :: pcs
                               | None => pcs
                               end in
-                  if sb_root stk' then root_first pcs' else prun stk' (pn, pcs') BNone true r
+                  if sb_root stk' then root_first pcs' (prun stk' (pn, pcs') BNone true r)
+                  else prun stk' (pn, pcs') BNone true r
               end
           | _ => PErr EUnexpected
           end
